@@ -42,9 +42,9 @@ def expected_items(seq, cfg):
     return out
 
 
-def judge(seq, cfg):
+def judge(seq, cfg, kind=None):
     data = streams.seq_bytes(seq)
-    r = run_reader(data, cfg, use_iter=True)  # the statement speaks of *iterating* the reader
+    r = run_reader(data, cfg, use_iter=True, stream=streams.STREAM_KINDS[kind](data) if kind else None)  # the statement speaks of *iterating* the reader
     exp = expected_items(seq, cfg)
     got = item_sigs(r)
     out = []
@@ -125,6 +125,8 @@ def judge_live(seq, cfgs):
 
 
 def replay_case(case):
+    if case.get("kind"):
+        return [(k + f"|stream={case['kind']}", d) for k, d in judge(tuple(case["tokens"]), case["cfg"], case["kind"])[0]]
     if case.get("live"):
         return judge_live(tuple(case["tokens"]), case["live"])
     if case.get("socket"):
@@ -146,6 +148,20 @@ def eval_block(block, acc):
                         acc.outcomes[("socket", chunk, bufsize)] += 1
                         for key, detail in out:
                             acc.violation(key, {"tokens": list(seq), "cfg": cfg, "socket": [chunk, bufsize]}, detail)
+        return
+    if ring == "kinds":
+        # other kinds of stream object: a BufferedReader (what open(..., "rb") returns), a pipe-like stream, a read/readline-only object
+        for seq in [(first,)] + [(first, t) for t in ALPHABET] + [(t, first) for t in streams.NOISE_TOKENS] + [(n, first, m) for n in ("n00", "nabc") for m in ("n00", "N1", "R1", "Uack")]:
+            for kind in ("buffered", "nonseekable", "minimal"):
+                for cfg in DEFAULTS:
+                    out, r, exp = judge(seq, cfg, kind)
+                    acc.evaluations += 1
+                    acc.transitions += len(r.items) + 1
+                    acc.outcomes[("kind", kind, len(exp))] += 1
+                    for key, detail in out:
+                        if key == "stream_not_consumed" and kind != "buffered":
+                            continue  # tell() is not available on these objects
+                        acc.violation(key + f"|stream={kind}", {"tokens": list(seq), "cfg": cfg, "kind": kind}, detail)
         return
     if ring == "live":
         for seq in [(first,)] + [(first, t) for t in ALPHABET]:
@@ -188,6 +204,7 @@ def run_tier(tier, t0):
     blocks.append(("long", None, 0))
     blocks += [("socket", f, 2) for f in streams.FRAME_TOKENS]
     blocks += [("live", f, 2) for f in streams.FRAME_TOKENS]
+    blocks += [("kinds", f, 2) for f in streams.FRAME_TOKENS]
     acc = engine.sweep(blocks, eval_block)
     # vacuity: per mode, at least one accepted and one rejected token per protocol that can be accepted
     vac = []
@@ -207,6 +224,7 @@ def run_tier(tier, t0):
             "from each token's standalone parser verdict. distinct_nontrivial = distinct (frames expected, protocols) classes"
         ),
         assumptions=[
+            "stream-kind ring: sequences of <= 2 tokens (and noise-frame-noise/frame triples) through a BufferedReader, a pipe-like stream (seek/tell raise) and a read/readline-only object",
             "live-reader ring: for sequences of <= 2 tokens, each of the 32 option combinations is read while a second reader with the opposite options (and one with default options) is alive, constructed after it and drained in lock-step",
             "sequences of <= 2 tokens are also delivered through a socket in fixed chunks of 1,2,3,5,8,13,64 bytes x bufsize 4,16,4096 (every segmentation is C10's job)",
             "pynmeagps / pyrtcm parsers are the oracle for 'accepted by its protocol parser' (O4)",
